@@ -17,7 +17,7 @@ def main():
     for ci, c in enumerate(cs):
         if sel in c.name:
             for gi, _ in enumerate(c.configs()):
-                tasks.append((ci, gi, tier, 0))
+                tasks.append((ci, gi, tier, int(os.environ.get("VERIF_SEED", "0"))))
     if True:
         for r in cli.run_tasks(tasks, min(16, max(1, len(tasks))), cli._deadline(tier)):
             nob = len(r["obligations"])
